@@ -46,6 +46,11 @@ def handle (j : Json) : Except String Json := do
         | "mean_absolute_percentage" => some (Gen.settingsLoss Gen.mean_absolute_percentage on m s d p)
         | _ => none
       pure (optRatJ v)
-    | .error _ => pure (optRatJ (Gen.evalRat name d p))
+    | .error _ =>
+      if name == "cosine_similarity" then
+        -- no square root at Rat: the exact inner product and squared norms the generated definition is built from
+        let (dot, a, b) := cosineParts d p
+        pure (Json.arr #[ratJ dot, ratJ a, ratJ b])
+      else pure (optRatJ (Gen.evalRat name d p))
 
 end Driver.H_c20
